@@ -22,7 +22,7 @@ intro = ("Changes written by independent sub-agents that were given only the tex
          "the last column. Each directory holds `patch.diff`, `demo_test.go`, `README.md` (the author's), `verify.log`,\n"
          "`meta.json`. Attempts that did not survive the confirmation (an existing randomized test of Pebble catches\n"
          "them) are listed in `seeded/REJECTED.md` and are not counted. Detection is by the quick tier unless the\n"
-         "last column says otherwise (C39-1: thorough tier only).\n\n" % (n, first))
+         "last column says otherwise (C39-1: thorough tier only; C22-2: still missed).\n\n" % (n, first))
 open(os.path.join(V, "seeded", "README.md"), "w").write("# Seeded property-breaking changes\n\n" + intro + table)
 dp = os.path.join(V, "DESIGN.md")
 s = open(dp).read()
